@@ -190,8 +190,9 @@ Definition valid_record_datab (typ : Z) (data : bytes) : bool :=
   else if typ =? 28 then valid_AAAAb data
   else false.
 
-(** The strings of finding F12: seven groups followed by "::" (RFC-valid, the
-    "::" standing for one zero group; the contract counts nine fields). *)
+(** The strings of (repaired) finding F12: seven groups followed by "::"
+    (RFC-valid, the "::" standing for one zero group; nine ':'-fields).  Used
+    only by the historical statements about the code before 7bd3a2c. *)
 Definition f12_shape (s : bytes) : Prop :=
   exists L, length L = 7%nat /\ Forall hexgroup L /\ s = join 58 L ++ [58; 58]%N.
 Definition f12_shapeb (s : bytes) : bool :=
